@@ -2884,7 +2884,8 @@ def _fit_2D_poly(degree, max_error, plate_scale,
     fit_error = np.inf
     if verbose and not single_degree:
         print(f'Maximum specified SIP approximation error: {max_error}')
-    max_error *= plate_scale
+    # (not in place: the tolerance may be the caller's 0-d array)
+    max_error = max_error * plate_scale
 
     fit_warning_msg = "Failed to achieve requested SIP approximation accuracy."
 
